@@ -6,7 +6,7 @@ from __future__ import annotations
 
 import json
 import re
-from typing import Any, Dict, List, Optional, Tuple
+from typing import Any, Dict, List, Mapping, Optional, Tuple
 
 from .. import infra
 from ..data import enumerate_data
@@ -342,6 +342,7 @@ def gql_image(spec, v, so: SOpts):
 # --------------------------------------------------------------------------------- worlds
 WORLD = '''
 import uuid
+import graphql
 from apischema.graphql import graphql_schema, resolver, interface, Query, Mutation
 from apischema.graphql import ID
 CALLS = []
@@ -354,6 +355,19 @@ class Pt:
 def a_required(a: int) -> int: CALLS.append(("a_required", a)); return a
 def a_default(a: int = 3) -> int: CALLS.append(("a_default", a)); return a
 def a_none(a: Optional[int] = None) -> Optional[int]: CALLS.append(("a_none", a)); return a
+@dataclass
+class Wide:
+    some_field: int = 0
+def a_wide_default(a: Wide = Wide(3)) -> int: CALLS.append(("a_wide_default", a)); return a.some_field
+def a_info_first(info: graphql.GraphQLResolveInfo, a: int = 3) -> int: CALLS.append(("a_info_first", a)); return a
+def a_info_mid(a: int, info: graphql.GraphQLResolveInfo, b: int = 2) -> int: CALLS.append(("a_info_mid", a, b)); return a + b
+@dataclass
+class HoldsMap:
+    by_key: Mapping[str, Wide] = field(default_factory=lambda: {"k_1": Wide(1)})
+    anything: Any = field(default_factory=lambda: [Wide(2), {"w": Wide(3)}])
+def map_of_objects() -> Mapping[str, Wide]: return {"k_1": Wide(1)}
+def any_of_objects() -> Any: return [Wide(2), {"w": Wide(3)}]
+def holds_map() -> HoldsMap: return HoldsMap()
 def a_opt_default(a: Optional[int] = 5) -> Optional[int]: CALLS.append(("a_opt_default", a)); return a
 def a_opt_list(a: Optional[List[int]] = [1]) -> int: CALLS.append(("a_opt_list", a)); return -1 if a is None else len(a)
 _UNSER = object()
@@ -469,7 +483,7 @@ def world_checks(st: infra.Stats):
     def viol(kind, what, **sig):
         st.violation({"label": "world", "signature": dict({"kind": kind}, **sig), "what": what[:500]})
 
-    ops = ["a_required", "a_default", "a_none", "a_opt_default", "a_opt_list", "a_unser", "a_obj_default", "a_list_default", "a_undefined", "a_enum_default", "a_two", "a_constrained", "in_list_default", "by_id"]
+    ops = ["a_required", "a_default", "a_none", "a_opt_default", "a_opt_list", "a_wide_default", "a_info_first", "a_info_mid", "a_unser", "a_obj_default", "a_list_default", "a_undefined", "a_enum_default", "a_two", "a_constrained", "in_list_default", "by_id"]
     built = {}
     for name in ops:
         st.case("world", "signature", name)
@@ -485,6 +499,9 @@ def world_checks(st: infra.Stats):
         "a_default": {"a": "Int!"},
         "a_none": {"a": "Int"},
         "a_opt_default": {"a": "Int"},
+        "a_wide_default": {"a": "WideInput!"},
+        "a_info_first": {"a": "Int!"},
+        "a_info_mid": {"a": "Int!", "b": "Int!"},
         "a_opt_list": {"a": "[Int!]"},
         "a_unser": {"a": "Int"},
         "a_obj_default": {"a": "PtInput!"},
@@ -513,6 +530,14 @@ def world_checks(st: infra.Stats):
         ("a_opt_default", "{ aOptDefault }", {"aOptDefault": 5}, ("a_opt_default", 5)),
         ("a_opt_default", "{ aOptDefault(a: null) }", {"aOptDefault": None}, ("a_opt_default", None)),
         ("a_opt_default", "{ aOptDefault(a: 2) }", {"aOptDefault": 2}, ("a_opt_default", 2)),
+        # the default of an object-typed parameter goes through the aliaser like any input value
+        ("a_wide_default", "{ aWideDefault }", {"aWideDefault": 3}, ("a_wide_default", m.Wide(3))),
+        ("a_wide_default", "{ aWideDefault(a: {someField: 4}) }", {"aWideDefault": 4}, ("a_wide_default", m.Wide(4))),
+        # parameters around the info parameter are arguments like the others
+        ("a_info_first", "{ aInfoFirst }", {"aInfoFirst": 3}, ("a_info_first", 3)),
+        ("a_info_first", "{ aInfoFirst(a: 4) }", {"aInfoFirst": 4}, ("a_info_first", 4)),
+        ("a_info_mid", "{ aInfoMid(a: 1) }", {"aInfoMid": 3}, ("a_info_mid", 1, 2)),
+        ("a_info_mid", "{ aInfoMid(a: 1, b: 5) }", {"aInfoMid": 6}, ("a_info_mid", 1, 5)),
         ("a_opt_list", "{ aOptList }", {"aOptList": 1}, ("a_opt_list", [1])),
         ("a_opt_list", "{ aOptList(a: null) }", {"aOptList": -1}, ("a_opt_list", None)),
         ("a_opt_list", "{ aOptList(a: [1, 2]) }", {"aOptList": 2}, ("a_opt_list", [1, 2])),
@@ -575,6 +600,22 @@ def world_checks(st: infra.Stats):
             viol("world_error_handler", f"{r.data} {r.errors}")
     except Exception as e:
         viol("world_schema_build", f"interfaces world: {e!r}", op="interfaces", exc=type(e).__name__)
+    # JSON scalars (mappings, Any): GraphQL resolves nothing below them, their content is serialized as serialize() does
+    try:
+        s = graphql_schema(query=[m.map_of_objects, m.any_of_objects, m.holds_map])
+        graphql.assert_valid_schema(s)
+        camel = apischema.utils.to_camel_case
+        for q, exp in (
+            ("{ mapOfObjects }", {"mapOfObjects": serialize(Mapping[str, m.Wide], m.map_of_objects(), aliaser=camel)}),
+            ("{ anyOfObjects }", {"anyOfObjects": serialize(Any, m.any_of_objects(), aliaser=camel)}),
+            ("{ holdsMap { byKey anything } }", {"holdsMap": serialize(m.HoldsMap, m.HoldsMap(), aliaser=camel)}),
+        ):
+            st.case("world", "json_scalars", q)
+            r = graphql.graphql_sync(s, q)
+            if r.errors or r.data != exp or not json_safe(r.data):
+                viol("world_json_scalar", f"{q}: data={r.data!r} errors={[e.message for e in (r.errors or [])][:2]} expected {exp}", op=q.split()[1])
+    except Exception as e:
+        viol("world_schema_build", f"json scalars world: {e!r}", op="json_scalars", exc=type(e).__name__)
     # interface hierarchies: an object / interface implements every interface-marked ancestor of its MRO
     try:
         s = graphql_schema(query=[m.inodes, m.ientities, m.inamed, m.one_article], types=[m.Article, m.Stamped, m.Account])
